@@ -632,7 +632,7 @@ impl<'a> PredSucc<'a> for BitVector {
     }
 
     fn predecessor(&'a self, value: usize) -> Self::OneIter {
-        let rank = self.rank(value + 1);
+        let rank = self.rank(value.saturating_add(1));
         if rank == 0 {
             Self::OneIter::empty_iter(self)
         } else {
